@@ -30,14 +30,20 @@ GRAMMARS = {
     # shares its choice sets / literals with SIBLING below, where they play another role
     "sep": ('r = { sep ~ EOI }\nsep = { " " | "\\t" }', " ", "  "),
     "trivia": ('r = { "a" ~ EOI }\nWHITESPACE = _{ "x" | "y" }', "axy", "a b"),
+    # rule names recur, with other bodies, in NAMESAKE below
+    "skipref": ('r = { (!end ~ ANY)* ~ end }\nend = { ";" }', "ab;", "ab"),
 }
+# the same rule NAMES as the observed grammars (r, end, sep, s, f) with different bodies; `end` is not
+# reducible to literals, so optimizer passes that give up on it exercise their bookkeeping
+NAMESAKE = 'r = { (!end ~ ANY)* ~ end ~ (sep | s | f)* }\nend = { ^"x" }\nsep = { "," }\ns = { "s" }\nf = { ASCII_DIGIT }'
+
 # same alternatives as "sep"'s rule but as implicit WHITESPACE (fused into a repeating SKIP regex),
 # and the same alternatives as "trivia"'s WHITESPACE but as an ordinary single choice
 SIBLING = 'o = { w ~ w+ ~ EOI }\nw = { ("x" | "y") ~ "-"? }\nWHITESPACE = _{ " " | "\\t" }'
 
 OTHER = 'o = { ASCII_HEX_DIGIT ~ (ASCII_ALPHA | ASCII_DIGIT | "-" | "_")* ~ NEWLINE? ~ LETTER* ~ SOI? ~ EOI }\nWHITESPACE = _{ " " | "\\n" }\nCOMMENT = _{ "//" }'
 
-OPS = ["mk_same_opt", "mk_same_plain", "mk_other_opt", "mk_other_plain", "gen_same_opt", "gen_other_opt", "gen_other_plain", "use_ok", "use_fail", "other_parse", "sibling_parse", "sibling_gen_parse"]
+OPS = ["mk_same_opt", "mk_same_plain", "mk_other_opt", "mk_other_plain", "gen_same_opt", "gen_other_opt", "gen_other_plain", "use_ok", "use_fail", "other_parse", "sibling_parse", "sibling_gen_parse", "namesake_opt", "namesake_plain"]
 
 
 def build_observed(cp, gname: str, mode: str):
@@ -78,6 +84,10 @@ def apply_op(cp, op: str, gname: str, observed):
         m = cp.generated(cp.parser(SIBLING, optimized=True))
         pestenv.run_parse(m, "o", "x  y-\tx")
         pestenv.run_parse(m, "o", "xx")
+    elif op in ("namesake_opt", "namesake_plain"):
+        p = cp.parser(NAMESAKE, optimized=op == "namesake_opt")
+        pestenv.run_parse(p, "r", "abX,s1")
+        pestenv.run_parse(p, "r", "ab")
     elif op == "other_parse":
         p = cp.parser(OTHER, optimized=True)
         pestenv.run_parse(p, "o", "a1-b\n")
@@ -214,7 +224,7 @@ def main(tier: str, seed: int, args) -> int:
     regions = known.regions_for("C15")
     hists = [[]] + [[o] for o in OPS]
     if tier == "quick":
-        hists += [list(h) for h in itertools.product(["mk_same_opt", "mk_other_opt", "gen_other_opt", "use_fail", "other_parse", "sibling_parse"], repeat=2)]
+        hists += [list(h) for h in itertools.product(["mk_same_opt", "mk_other_opt", "gen_other_opt", "use_fail", "other_parse", "sibling_parse", "namesake_opt"], repeat=2)]
     else:
         hists += [list(h) for h in itertools.product(OPS, repeat=2)]
         rnd = random.Random(seed)
@@ -236,7 +246,7 @@ def main(tier: str, seed: int, args) -> int:
                             "mode": mode,
                             "history": h,
                             "when": when,
-                            "lengths": [0, 1, 2, 3] if tier != "quick" or gname in ("sep", "trivia") else [0, 1, 2],
+                            "lengths": [0, 1, 2, 3] if tier != "quick" or gname in ("sep", "trivia", "skipref") else [0, 1, 2],
                             "regions": {k[len(unit) + 1 :]: v for k, v in regions.items() if k.startswith(unit + "|")},
                         }
                     )
